@@ -57,6 +57,7 @@ func profile(name string) Profile {
 		p.MaxOps = 24
 	case "C04", "C18":
 		w["reopen"], w["closereopen"], w["search"], w["collect"] = 10, 6, 14, 10
+		w["repairabandon"] = 3
 		p.Sweep = 50
 	case "C05":
 		p.CfgMode = "syncany"
@@ -65,6 +66,7 @@ func profile(name string) Profile {
 		p.Sweep = 30
 	case "C11":
 		w["fault"], w["repair"], w["control"], w["schema"], w["reopen"], w["closereopen"] = 16, 9, 9, 6, 8, 3
+		w["repairabandon"] = 6
 		w["many"], w["bulk"], w["or"], w["and"] = 2, 1, 1, 1
 		p.CfgMode = "syncany"
 		p.Sweep = 45
@@ -786,6 +788,37 @@ func (e *Exec) GenOp(r *rand.Rand, p Profile) []string {
 			back = "vopen 5"
 		}
 		return append(out, "close", "dirhash", back, "count", "all", "dump", "fs")
+	case "repairabandon":
+		// files removed and added from outside (any mix, also more removed than added), Repair,
+		// Control, a sweep; then the handle is ABANDONED and a new one opened: synchronous mode commits
+		// in every mutating call, Repair included
+		var out []string
+		nrm, nadd := r.Intn(3), r.Intn(3)
+		if nrm+nadd == 0 {
+			nrm = 1
+		}
+		picked := map[int]bool{}
+		for i := 0; i < nrm; i++ {
+			if u := e.pickLive(r); u != 0 && !picked[u] {
+				picked[u] = true
+				out = append(out, fmt.Sprintf("rmfile %d", u))
+			}
+		}
+		for i := 0; i < nadd; i++ {
+			f := genRec(r, e.cfg)
+			f.U = len(e.uu) + i
+			f.K[shape.FTM], f.K[shape.FVM] = "i0", "i0"
+			cf, _ := e.spec.canon(f)
+			out = append(out, "addfile "+cf.String())
+		}
+		if len(out) == 0 {
+			return e.GenOp(r, p)
+		}
+		if e.cfg.Async {
+			// (an asynchronous handle is closed first: its routine would go on writing)
+			return append(out, "flushall", "repair", "control", "count", "all", "dump", "fs", "close", "reopen", "count", "all", "dump", "control")
+		}
+		return append(out, "repair", "control", "count", "all", "dump", "fs", "reopen", "count", "all", "dump", "control")
 	case "fault":
 		switch r.Intn(7) {
 		case 0, 1:
